@@ -7,7 +7,7 @@
    [block_string_value], [strip_doc] are the specification side
    (Spec/PrinterSpec.v: GraphQL June 2018, 2.9.4). *)
 From PyGql Require Import Lang.Parser Spec.LexSpec Spec.GrammarSpec Proofs.PrinterRoundtrip Proofs.PrinterValueRoundtrip
-                          Proofs.PrinterExecRoundtrip.
+                          Proofs.PrinterExecRoundtrip Spec.ExecOnlySpec Proofs.PrinterClosedRoundtrip.
 From PyGql Require Import Lang.PrinterModel Spec.PrinterSpec Proofs.PrinterProofs.
 
 (* Quoted strings: reading the printed form of ANY string s (every code
@@ -140,6 +140,44 @@ Proof.
   inversion Hp; subst. apply pr_document_strip.
 Qed.
 Print Assumptions C03_exec_idempotent.
+
+(* ---- the closed statements: no well-formedness hypothesis left ----
+   (what the parser model accepts is well-formed: C01_parse_output_wf, proved by
+   the C01 builder over [wf_exec_doc]; composed in Proofs/PrinterClosedRoundtrip.v)
+
+   Property C03 for executable documents: for every document without type-system
+   definitions that the parser accepts (under any flags fl), and every indent
+   made of spaces and tabs, printing the tree and parsing the text again -- with
+   locations off, and fragment variable definitions allowed if they were --
+   yields the same tree up to source positions. *)
+Theorem C03_roundtrip_exec_closed : forall fl fl' s d ind,
+  parse_document fl s = Ok d -> exec_only d -> all_ws ind ->
+  no_location fl' = true -> (fragment_variables fl = true -> fragment_variables fl' = true) ->
+  parse_document fl' (print_ast ind true d) = Ok (strip_doc d).
+Proof. exact roundtrip_exec_closed. Qed.
+Print Assumptions C03_roundtrip_exec_closed.
+
+(* print (parse (print d)) = print d, for every accepted executable document *)
+Theorem C03_idempotent_exec_closed : forall fl fl' s d d' ind,
+  parse_document fl s = Ok d -> exec_only d -> all_ws ind ->
+  no_location fl' = true -> (fragment_variables fl = true -> fragment_variables fl' = true) ->
+  parse_document fl' (print_ast ind true d) = Ok d' ->
+  print_ast ind true d' = print_ast ind true d.
+Proof. exact idempotent_exec_closed. Qed.
+Print Assumptions C03_idempotent_exec_closed.
+
+(* the same for standalone values and types (parse_value / parse_type) *)
+Theorem C03_roundtrip_value_closed : forall fl fl' cf s v,
+  parse_value_str fl s = Ok v -> all_ws (c_indent cf) -> no_location fl' = true ->
+  parse_value_str fl' (pr_value cf v) = Ok (strip_value v).
+Proof. exact roundtrip_value_closed. Qed.
+Print Assumptions C03_roundtrip_value_closed.
+
+Theorem C03_roundtrip_type_closed : forall fl fl' s t,
+  parse_type_str fl s = Ok t -> no_location fl' = true ->
+  parse_type_str fl' (pr_type t) = Ok (strip_ty t).
+Proof. exact roundtrip_type_closed. Qed.
+Print Assumptions C03_roundtrip_type_closed.
 
 (* the two independent transcriptions of BlockStringValue (C02's and C03's)
    are the same function *)
